@@ -16,7 +16,7 @@ use super::{
     TSetIdentifier, TStructIdentifier, TType, ThriftException, ZERO_COPY_THRESHOLD,
     error::ProtocolExceptionKind,
     new_protocol_exception,
-    rw_ext::{ReadExt, WriteExt, checked_container_size, split_to_checked},
+    rw_ext::{ReadExt, WriteExt, checked_container_size, read_exact_to_vec, split_to_checked},
     varint_ext::VarIntProcessor,
 };
 
@@ -1100,10 +1100,7 @@ where
     #[inline]
     async fn read_bytes_vec(&mut self) -> Result<Vec<u8>, ThriftException> {
         let size = self.read_varint_async::<u32>().await? as usize;
-        // FIXME: use maybe_uninit?
-        let mut v = vec![0; size];
-        self.reader.read_exact(&mut v).await?;
-        Ok(v)
+        Ok(read_exact_to_vec(&mut self.reader, size).await?)
     }
 
     #[inline]
